@@ -48,10 +48,10 @@ type PathState struct {
 	loopy      map[string]bool
 	Infeasible bool
 	defers     []Event
-	StopBlock  *ssa.BasicBlock  // set when the path ended by re-entering this block
-	Inlines    []string         // helpers interpreted inline on this path
-	Panicked   bool             // the path ends in a panic raised inside an inlined helper
-	Resolved   map[string]*Term // call term key -> the value the (pure, branching) callee returns on this path
+	StopBlock  *ssa.BasicBlock         // set when the path ended by re-entering this block
+	Inlines    []string                // helpers interpreted inline on this path
+	Panicked   bool                    // the path ends in a panic raised inside an inlined helper
+	Resolved   map[string]*Term        // call term key -> the value the (pure, branching) callee returns on this path
 	visits     map[*ssa.BasicBlock]int // how often each block has been entered so far (unrolled loops)
 }
 
@@ -178,6 +178,11 @@ func (s *PathState) compute(v ssa.Value) *Term {
 				}
 			}
 		}
+		if x.Op == token.ADD || x.Op == token.MUL {
+			if bt, ok := x.Type().Underlying().(*types.Basic); ok && bt.Info()&types.IsInteger != 0 && a.Op == "const" && b.Op != "const" {
+				a, b = b, a // c + x is x + c
+			}
+		}
 		return mk("binop", opString(x.Op), "("+a.K+" "+opString(x.Op)+" "+b.K+")", v, a, b)
 	case *ssa.UnOp:
 		if x.Op == token.MUL || x.Op == token.ARROW {
@@ -194,6 +199,11 @@ func (s *PathState) compute(v ssa.Value) *Term {
 	case *ssa.Field:
 		a := s.T(x.X)
 		fn := fieldName(x.X.Type(), x.Field)
+		if a.Fields != nil {
+			if fv := a.Fields[fn]; fv != nil {
+				return fv
+			}
+		}
 		return mk("field", fn, a.K+"."+fn, v, a)
 	case *ssa.IndexAddr:
 		a, i := s.T(x.X), s.T(x.Index)
@@ -220,8 +230,8 @@ func (s *PathState) compute(v ssa.Value) *Term {
 		a := s.T(x.X)
 		args := []*Term{a}
 		k := "slice(" + a.K
-		for _, e := range []ssa.Value{x.Low, x.High, x.Max} {
-			if e == nil {
+		for ei, e := range []ssa.Value{x.Low, x.High, x.Max} {
+			if e == nil || (ei == 0 && isConstInt(e, 0)) {
 				k += ",_"
 				args = append(args, nil)
 			} else {
@@ -315,9 +325,39 @@ func (s *PathState) load(in *ssa.UnOp) *Term {
 	if v, ok := s.mem[a.K]; ok {
 		return v
 	}
+	// a whole struct read from a local whose fields were stored one by one: remember the fields as they are now
+	if _, isStruct := in.Type().Underlying().(*types.Struct); isStruct {
+		if r := a.Root(); r != nil && r.Op == "alloc" && !s.loopy[a.K] {
+			var fields map[string]*Term
+			pre := "&" + a.K + "."
+			for k, v := range s.mem {
+				if strings.HasPrefix(k, pre) && v != nil && !strings.ContainsAny(k[len(pre):], ".[") {
+					if fields == nil {
+						fields = map[string]*Term{}
+					}
+					fields[k[len(pre):]] = v
+				}
+			}
+			if fields != nil {
+				ver := ""
+				if n := s.memver[r.K]; n > 0 {
+					ver = fmt.Sprintf("#%d", n)
+				}
+				t := mk("load", "", "load("+a.K+")"+ver+"@"+s.iid(in), in, a)
+				t.In = in
+				t.Fields = fields
+				return t
+			}
+		}
+	}
 	// field of a struct whose whole value was stored (x := <-ch; x.f)
 	if a.Op == "fieldaddr" {
 		if whole, ok := s.mem[a.Args[0].K]; ok && whole != nil {
+			if whole.Fields != nil {
+				if fv := whole.Fields[a.Aux]; fv != nil {
+					return fv
+				}
+			}
 			t := mk("field", a.Aux, whole.K+"."+a.Aux, in, whole)
 			return t
 		}
